@@ -12,6 +12,7 @@ import copy
 import io
 import json
 import os
+import re
 import subprocess
 import sys
 
@@ -35,7 +36,7 @@ def _phase(name):
 
 MANIFEST = dict(
     category="proof",
-    text="Lean 4, 25 theorems, none _partial, over Model/Scope.lean and three regenerated tables. "
+    text="Lean 4, 26 theorems, none _partial, over Model/Scope.lean and three regenerated tables. "
          "(1) Lexical scoping, for all trees, positions, keys and values: lookup = nearest enclosing definition; the heap model of "
          "util.Scope (with clone/reparent/cycles) agrees with the chain model; writing k:v on a container (namespace, class, block, at any "
          "path) and writing it on every contained function without a nearer definition give every function the same lookups while "
@@ -50,12 +51,16 @@ MANIFEST = dict(
          "default is [] so the search path of `--path P..` equals create_wrapper(path=[P..]); main.Config holds no class-level mutable "
          "attribute and creates its lists/dict per instance; in the table of every syntactic option/format read of shroud/*.py no "
          "function-scoped option (and no explicitly read function-scoped format field) is read through a library-level owner expression "
-         "(allow list empty). "
+         "(allow list empty), and no value read from a function-scoped option/format field is stored in an attribute of a pass or wrapper "
+         "object (cached across declarations). "
          "Ties on every run through the compiled driver drv_scope: util.Scope operation programs, real node construction "
          "(create_library_from_dictionary, blocks nested in blocks/classes/namespaces) vs build/views, Parser.attribute on real token "
-         "streams, the real main_with_args merge; the Scope read trace validates the static read table and the function-scoped baseline. "
+         "streams, the real main_with_args merge; node construction must hand the user's description back unchanged (the model's "
+         "constructors are pure); the Scope read trace validates the static read table and the function-scoped baseline. "
          "Implementation-only oracle: byte comparison of complete output directories for pairs of equivalent descriptions (option/format "
-         "and wrap_* on container vs members at every placement, sibling, empty block, every accepted attribute name inline vs "
+         "and wrap_* on container vs members at every placement, locality (a setting on one namespace leaves the sibling's files as in "
+         "the base run and gives its own files as with the setting on the library; integer options included), one mapping shared through "
+         "YAML aliases vs copies, sibling, empty block, every accepted attribute name inline vs "
          "attrs/fattrs on functions/methods/constructors/arguments, generated option values YAML vs real command line, --path with stale "
          "look-alike files, create_wrapper once and in sequences vs fresh command-line runs).",
     design="3 C14",
@@ -104,6 +109,7 @@ THEOREMS = {
         "Shroud.Scope.config_no_shared_state",
         "Shroud.Scope.cli_path_eq_create_wrapper",
         "Shroud.Scope.function_scoped_not_read_at_library_level",
+        "Shroud.Scope.function_scoped_not_cached_across_declarations",
     ]
 }
 
@@ -266,6 +272,7 @@ POOL_FREE = [
     "void {n}(std::vector<int> &arg +intent(in))",
     "int * {n}() +dimension(3)",
     "void {n}(int *arr +intent(inout)+dimension(n), int n)",
+    "int {n}(const int *values +dimension(..), int nvalues)",
 ]
 
 
@@ -281,10 +288,18 @@ def gen_tree(r, synthetic=True, maxdepth=3):
         f = {"zq%d" % k: r.randrange(1, 90) for k in r.sample(range(1, 5), r.randrange(0, 3))}
         return o, f
 
+    TIE_ATTRS = {"int {n}(int a, double b)": {"attrs": {"a": {"value": True}, "b": {"value": True}}},
+                 "bool {n}(bool flag)": {"attrs": {"flag": {"value": True}}, "fattrs": {"pure": True}},
+                 "void {n}(int *out +intent(out))": {"attrs": {"out": {"intent": "out"}}},
+                 "const char * {n}()": {"fattrs": {"len": 30}}}
+
     def fn(inclass):
         counter[0] += 1
         o, f = opts()
-        return ("fn", "f%d" % counter[0], o, f, r.choice(POOL_FREE[:9] if inclass else POOL_FREE))
+        decl = r.choice(POOL_FREE[:9] if inclass else POOL_FREE)
+        if decl in TIE_ATTRS and r.random() < 0.6:
+            return ("fn", "f%d" % counter[0], o, f, decl, copy.deepcopy(TIE_ATTRS[decl]))
+        return ("fn", "f%d" % counter[0], o, f, decl)
 
     def scope(kind, depth, inclass):
         counter[0] += 1
@@ -338,9 +353,9 @@ def tree_to_yaml_decls(items):
             for extra in it[5:]:
                 d.update(extra)
         if o:
-            d["options"] = dict(o)
+            d["options"] = o if isinstance(o, dict) else dict(o)
         if f:
-            d["format"] = dict(f)
+            d["format"] = f if isinstance(f, dict) else dict(f)
         if kind != "fn":
             d["declarations"] = tree_to_yaml_decls(it[4])
         out.append(d)
@@ -409,8 +424,11 @@ def real_tree(items, topo, topf):
             "declarations": tree_to_yaml_decls(items)}
     typemap.initialize()
     buf = io.StringIO()
+    inp = copy.deepcopy(desc)
     with record_nodes() as created, contextlib.redirect_stdout(buf):
-        lib = ast.create_library_from_dictionary(copy.deepcopy(desc))
+        lib = ast.create_library_from_dictionary(inp)
+    # the model's constructors are pure functions of the description: the user's mappings must come back unchanged
+    mutated = inp["declarations"] != desc["declarations"]
     res = []
     qs = [1, 2, 3, 4]
     for which in ("options", "fmtdict"):
@@ -422,7 +440,7 @@ def real_tree(items, topo, topf):
             nodes.append(("f:" if isf else "s:") + _encp(_zq(sc._to_dict())))
             if isf:
                 fns.append(",".join(str(sc.get("zq%d" % k, "-")) for k in qs))
-        res.append(" ".join(nodes) + " | " + " ".join(fns))
+        res.append(" ".join(nodes) + " | " + " ".join(fns) + (" | INPUT-DESCRIPTION-MUTATED" if mutated else ""))
     order = [n.ast.name for n in lib.functions]
     return res, order
 
@@ -700,6 +718,8 @@ def alt_value(name, default):
         return "scalar"
     if isinstance(default, str) and name.endswith("_template") and default:
         return default + "_z"
+    if isinstance(default, int):
+        return {"F_assumed_rank_min": 1, "F_assumed_rank_max": 2}.get(name, default + 1)
     return None
 
 
@@ -754,15 +774,60 @@ def doc_yaml(doc):
     if doc.get("format"):
         d["format"] = dict(doc["format"])
     d["declarations"] = tree_to_yaml_decls(doc["tree"])
+    if doc.get("expand_aliases"):
+        return yaml.dump(json.loads(json.dumps(_plain(d))), default_flow_style=False, sort_keys=False)
     return yaml.dump(_plain(d), default_flow_style=False, sort_keys=False)
 
 
-def _plain(x):
+def _plain(x, memo=None):
+    """plain dict/list copy that PRESERVES object sharing: a mapping used twice in the description is written once
+    with a YAML anchor and referred to by an alias, as a user would."""
+    if memo is None:
+        memo = {}
+    if isinstance(x, (dict, list)) and id(x) in memo:
+        return memo[id(x)]
     if isinstance(x, dict):
-        return {k: _plain(v) for k, v in x.items()}
+        out = {}
+        memo[id(x)] = out
+        for k, v in x.items():
+            out[k] = _plain(v, memo)
+        return out
     if isinstance(x, list):
-        return [_plain(v) for v in x]
+        out = []
+        memo[id(x)] = out
+        out.extend(_plain(v, memo) for v in x)
+        return out
     return x
+
+
+def share_equal_dicts(doc):
+    """Variant of a description in which equal options / format / attrs / fattrs mappings of different declarations are
+    ONE object (YAML anchor + aliases).  Returns (doc, number of aliases made)."""
+    pool = {}
+    count = [0]
+
+    def share(d):
+        if not isinstance(d, dict) or not d:
+            return d
+        key = json.dumps(d, sort_keys=True, default=str)
+        if key in pool:
+            count[0] += 1
+            return pool[key]
+        pool[key] = d
+        return d
+
+    def f(it, p):
+        it = it[:2] + (share(it[2]), share(it[3])) + tuple(it[4:])
+        if it[0] == "fn" and len(it) > 5:
+            ex = dict(it[5])
+            for k in ("attrs", "fattrs"):
+                if k in ex:
+                    ex[k] = share(ex[k])
+            it = it[:5] + (ex,) + tuple(it[6:])
+        return it
+    out = dict(doc)
+    out["tree"] = map_tree(doc["tree"], f)
+    return out, count[0]
 
 
 def map_tree(items, f, path=()):
@@ -1371,6 +1436,106 @@ def oracle_paths(ctx, orc, scr, thorough):
             ctx.nontrivial("path:" + name)
 
 
+def locality_doc(r, python):
+    """two sibling namespaces, each with its own C / Fortran / Python files, with the same kinds of functions"""
+    def members(tag):
+        ds = r.sample(POOL_FREE[:13], 3) + ["int {n}(const int *values +dimension(..), int nvalues)",
+                                            "const std::string & {n}(const std::string & name)"]
+        r.shuffle(ds)
+        out = [("fn", "%s%d" % (tag, j), {}, {}, d) for j, d in enumerate(ds)]
+        out.append(("cls", "K" + tag, {}, {}, [("fn", tag + "m", {}, {}, "int {n}(int a, double b)"),
+                                              ("fn", tag + "s", {}, {}, "const std::string & {n}()")]))
+        return out
+    tree = [("ns", "alpha", {}, {}, members("a")), ("ns", "beta", {}, {}, members("b"))]
+    return {"library": "loc", "cxx_header": "loc.hpp", "options": {"debug_testsuite": True, "wrap_python": python, "wrap_lua": False},
+            "format": {}, "tree": tree}
+
+
+def oracle_locality(ctx, orc, scr, r, thorough, opt_cases, fmt_cases):
+    """The output written for a container depends only on what ITS declarations look up: with k=v written on
+    namespace alpha only, the files of beta equal the uncustomised run and the files of alpha equal the run with k=v
+    on the whole library (and the same with the roles swapped).  This sees a value computed once and reused across
+    declarations, which every lookup-preserving rewrite is blind to."""
+    dist = collections.Counter()
+    for rep in range(2 if thorough else 1):
+        doc = locality_doc(r, python=(rep == 0))
+        base, eb, _ = run_doc(doc, scr, "loc%d-base" % rep)
+        if eb:
+            ctx.note("locality_library_rejected", eb)
+            continue
+
+        def owned(tree, who):
+            return {k: v for k, v in tree.items() if who in k and not k.endswith(".json")}
+        cases = [(2, k, v) for k, v in opt_cases] + [(3, k, v) for k, v in fmt_cases]
+        if not thorough:
+            ints = [c for c in cases if isinstance(c[2], int) and not isinstance(c[2], bool)]
+            rest = [c for c in cases if c not in ints]
+            cases = ints + r.sample(rest, min(4, len(rest)))
+        for field, key, val in cases:
+            fname = "options" if field == 2 else "format"
+            lib = copy.deepcopy(doc); lib[fname] = dict(lib[fname]); lib[fname][key] = val
+            tl, el, yl = run_doc(lib, scr, "loc%d-%s-lib" % (rep, key))
+            for mine, other, idx in (("alpha", "beta", 0), ("beta", "alpha", 1)):
+                one = copy.deepcopy(doc)
+                one["tree"] = set_on(doc["tree"], (idx,), field, key, val)
+                t1, e1, y1 = run_doc(one, scr, "loc%d-%s-%s" % (rep, key, mine))
+                ctx.count(1)
+                orc.kinds["locality"] += 1
+                dist["%s.%s" % (fname, type(val).__name__)] += 1
+                if e1 or el:
+                    if bool(e1) != bool(el):
+                        ctx.fail("locality:%s:%s:rejected" % (fname, key),
+                                 "%s %s=%r on namespace %s: %s; on the library: %s" % (fname, key, val, mine, e1 or "ok", el or "ok"),
+                                 {"kind": "locality", "first": y1, "second": yl})
+                    continue
+                bad = None
+                for fn_ in sorted(owned(base, other)):
+                    if t1.get(fn_) != base[fn_]:
+                        bad = (fn_, "sibling namespace %s changed although %s %s=%r is written on %s only" % (other, fname, key, val, mine),
+                               doc_yaml(doc))
+                        break
+                if not bad:
+                    for fn_ in sorted(set(owned(tl, mine)) | set(owned(t1, mine))):
+                        if t1.get(fn_) != tl.get(fn_):
+                            bad = (fn_, "files of namespace %s differ between %s %s=%r on that namespace and on the library" % (
+                                mine, fname, key, val), yl)
+                            break
+                if bad:
+                    ctx.fail("locality:%s:%s:%s" % (fname, key, mine), "%s (%s)" % (bad[1], bad[0]),
+                             {"kind": "locality", "first": y1, "second": bad[2], "file": bad[0]})
+                elif owned(t1, mine) != owned(base, mine):
+                    ctx.nontrivial("locality:%s:%s:%s" % (fname, key, mine))
+    ctx.note("locality_distribution", dict(dist))
+
+
+def oracle_aliases(ctx, orc, scr, r, thorough, opt_cases, fmt_cases):
+    """A mapping written once and referred to by YAML aliases from several declarations (options, format, attrs,
+    fattrs) equals the description with the aliases expanded.  This sees input dictionaries that are consumed/mutated."""
+    n_alias = 0
+    for rep in range(6 if thorough else 3):
+        # functions with the same parameter list sharing one attrs / fattrs mapping
+        inline, bare, attrs, fattrs = attr_variants(_Fixed(r.randrange(12)))
+        extra = {}
+        if attrs:
+            extra["attrs"] = attrs
+        if fattrs:
+            extra["fattrs"] = fattrs
+        k, v = r.choice(opt_cases)
+        fk, fv = r.choice(fmt_cases) if fmt_cases else (None, None)
+        o = {k: v}
+        fm = {fk: fv} if fk else {}
+        tree = [("fn", "s%d" % j, dict(o), dict(fm), bare, copy.deepcopy(extra)) for j in range(3)]
+        tree.insert(1, ("block", "B", dict(o), dict(fm), [("fn", "s9", {}, {}, bare, copy.deepcopy(extra))]))
+        doc = {"library": "ali", "cxx_header": "ali.hpp", "options": {"debug_testsuite": True, "wrap_python": rep % 2 == 0}, "tree": tree}
+        shared, cnt = share_equal_dicts(doc)
+        n_alias += cnt
+        expanded = dict(doc, expand_aliases=True)
+        orc.compare_docs("aliases", "aliases:%s" % ("attrs" if attrs else "fattrs"),
+                         "one mapping shared through YAML aliases (%d aliases) vs the same description with copies" % cnt,
+                         shared, expanded, skip_json=False)
+    ctx.note("alias_pairs", {"pairs": 6 if thorough else 3, "aliases_made": n_alias})
+
+
 def oracle_pairs(ctx, scr, thorough, fs_options, fs_formats, defaults_o, defaults_f):
     r = common.rng("c14-oracle")
     orc = Oracle(ctx, scr)
@@ -1396,7 +1561,8 @@ def oracle_pairs(ctx, scr, thorough, fs_options, fs_formats, defaults_o, default
     if not thorough:
         # quick: a seeded sample, always containing the options the design names
         must = [c for c in opt_cases if c[0] in ("F_force_wrapper", "C_force_wrapper", "F_string_len_trim",
-                                                 "F_create_bufferify_function")]
+                                                 "F_create_bufferify_function")
+                or (isinstance(c[1], int) and not isinstance(c[1], bool))]
         rest = [c for c in opt_cases if c not in must]
         r.shuffle(rest)
         must.sort(key=lambda c: c[0] != "F_force_wrapper")
@@ -1488,7 +1654,34 @@ def oracle_pairs(ctx, scr, thorough, fs_options, fs_formats, defaults_o, default
             if eoff:
                 ctx.note("wrap_off_rejected_%d_%s" % (li, wl), eoff)
                 continue
+            # domain: the container holds at least one function the L wrapper actually wraps (Shroud switches a function's
+            # own flag off for argument kinds a wrapper does not implement; a container left with nothing wrappable still
+            # writes its empty module when the flag is written on it, which is not an option-scope matter)
+            on = copy.deepcopy(off)
+            on["options"][wl] = True
+            on_tree, eon, _ = run_doc(on, scr, "won%d%s" % (li, wl))
+            if eon:
+                continue
+            pat = {"wrap_lua": lambda f: f.startswith("lua"), "wrap_python": lambda f: f.startswith("py"),
+                   "wrap_c": lambda f: f.startswith("wrap") and f.endswith((".h", ".c", ".cpp", ".hpp")),
+                   "wrap_fortran": lambda f: f.endswith(".f")}[wl]
+            ltext = b"\n".join(v for k, v in on_tree.items() if pat(k)).decode(errors="replace")
+
+            def wrapped_names(items):
+                out = []
+                for it_ in items:
+                    if it_[0] == "fn":
+                        nm = re.search(r"\+name\((\w+)\)", it_[4])
+                        nm = nm.group(1) if nm else it_[1]
+                        if re.search(r"(?<![A-Za-z0-9])%s(?![A-Za-z0-9])" % re.escape(nm), ltext):
+                            out.append(nm)
+                    else:
+                        out += wrapped_names(it_[4])
+                return out
             for p, it in conts:
+                if not wrapped_names(it[4]):
+                    wrap_dist["%s.skipped-nothing-wrappable" % wl] += 1
+                    continue
                 depth_ns = sum(1 for q in range(1, len(p) + 1) if _node_at(off["tree"], p[:q])[0] == "ns")
                 if (not thorough and depth_ns < 2 and r.random() < 0.35 and not any(k[0] != "fn" for k in it[4])):
                     continue    # quick: always the nested placements, a sample of the flat ones
@@ -1539,6 +1732,9 @@ def oracle_pairs(ctx, scr, thorough, fs_options, fs_formats, defaults_o, default
                          "inline attributes vs attrs/fattrs: %s" % inline, a, b, skip_json="nodecl")
 
     oracle_attrs(ctx, orc, r, thorough)
+    _phase("oracle:locality+aliases")
+    oracle_locality(ctx, orc, scr, r, thorough, opt_cases, fmt_cases)
+    oracle_aliases(ctx, orc, scr, r, thorough, opt_cases, fmt_cases)
 
     _phase('oracle:cli+path')
     # ---------- YAML fields vs --option / --language (fresh processes, real command line)
@@ -1775,7 +1971,8 @@ def run(ctx):
     reads, changed2 = extract_optreads.regenerate()
     ctx.static_reads = reads
     cls_count = collections.Counter("%s.%s" % (k, c) for k, n, c, o, s_ in reads)
-    ctx.note("gen_optreads", {"changed": changed2, "reads": len(reads), "by_kind_and_owner": dict(cls_count)})
+    ctx.note("gen_optreads", {"changed": changed2, "reads": len(reads), "by_kind_and_owner": dict(cls_count),
+                              "cached_on_objects": sorted(set("%s.%s @ %s" % c for c in extract_optreads.CACHED))})
     ok = ctx.lean(MODULES, THEOREMS, extra_targets=("drv_scope",))
     drv = common.Driver("drv_scope")
     ctx.cov["trusted_base"] = [
@@ -1810,6 +2007,11 @@ def run(ctx):
         "command-line option values are text coerced to bool (true/True/false/False), int (ASCII digit strings) or str: equivalence "
         "with a YAML field holds where YAML resolves the scalar to that same value (not for yes/on/1.5/negative numbers)",
         "attribute pairs rejected by Shroud are required to be rejected on both sides with the same exception type only",
+        "wrap_L on a container vs on its functions is compared only for containers holding at least one function the L wrapper "
+        "implements (Shroud clears a function's own flag for unsupported argument kinds, e.g. std::vector in Lua; a container left with "
+        "nothing wrappable still writes its empty module when the flag is written on it)",
+        "locality is checked on sibling namespaces, whose C/Fortran/Python output goes to files of their own; shared files "
+        "(types<lib>.h, util<lib>) are not attributed to either",
     ]
     scr = common.scratch("shroudverif-c14-")
     try:
